@@ -104,7 +104,10 @@ Ret ==
   /\ Ev.nsent <= 1                                                       \* Once
   /\ \/ Ev.out = "ok" /\ phase[Ev.r] = "body" /\ UNCHANGED dup
      \/ Ev.out = "exc" /\ Ev.r \in hit /\ UNCHANGED dup                   \* NoFail ("internal" never passes)
-     \/ MuxRace /\ Ev.out \in {"exc", "internal"} /\ ("why" \in DOMAIN Ev) /\ Ev.why = "dup-stream-id" /\ dup' = TRUE
+     \* (the race fails one caller with the signature, and may fail the others collaterally - the server
+     \*  answers the garbage with GOAWAY - before or after; End demands that the signature was seen)
+     \/ MuxRace /\ Ev.out \in {"exc", "internal"}
+           /\ dup' = (dup \/ (("why" \in DOMAIN Ev) /\ Ev.why = "dup-stream-id"))
   /\ phase' = [phase EXCEPT ![Ev.r] = "ret"]
   /\ UNCHANGED <<cnt, inpool, pst, tainted, hit>>
 
